@@ -507,3 +507,24 @@ PROPS["C11"]["rule"] = PROPS["C11"]["rule"] + " || staticload (see C18): between
 PROPS["C17"]["drivers"] = PROPS["C17"]["drivers"] + [{"name": "flushfirst", "n_quick": 40, "n_thorough": 400}]
 PROPS["C17"]["model_files"] = list(dict.fromkeys(PROPS["C17"]["model_files"] + ["corr/FlushFirstCorr.v"]))
 PROPS["C17"]["rule"] = PROPS["C17"]["rule"] + " || flushfirst: n generated configurations x 4 ways of building the engine object (alone, with a persister for a new / a stored session, with an explicit state and cache): Flush as the first operation, twice; it must answer ErrFlushNoExec, write nothing and not panic"
+
+# C19 (agent conc follow-up 6): short catch nodes, pairwise aliasing observation, LOADs back in the shared-persister shape
+PROPS["C19"]["rule"] = PROPS["C19"]["rule"] + (" || one generated application in three has a 6-byte catch node (HALT; MOVE _ / HALT; MOVE ^); after every request (alias) resp. after every concurrent run (race) the backing arrays "
+    "of the sessions' pending-code slices must be pairwise disjoint and disjoint from the application's shared arrays; shared-persister shape (after a037abb): applications with LOAD/RELOAD/MAP and a lang1 function, "
+    "no entry functions, no out-of-range flag tests (a panicking request is never saved: K-C11-6)")
+
+# C08: the session invariant (flag field covers BitSize) for sessions served through ONE reused WithFlush persister
+PROPS["C08"]["drivers"] = PROPS["C08"]["drivers"] + [{"name": "alias", "bin": "vh_conc", "args": ["-replay", "only:shared-persister"], "env": {"GORACE": "halt_on_error=1 exitcode=66"}, "n_quick": 40, "n_thorough": 400}]
+PROPS["C08"]["model_files"] = list(dict.fromkeys(PROPS["C08"]["model_files"] + SLICE_MODEL))
+PROPS["C08"]["rule"] = PROPS["C08"]["rule"] + (" || alias (vh_conc, shape shared-persister only): ONE WithFlush persister reused for every request of 2-4 interleaved sessions, new sessions arriving through it; "
+    "every session's responses and stored session (flag field size included) must equal its solo run")
+
+# C03: routing of one session must not depend on what other sessions of the same process do (shared resource arrays)
+PROPS["C03"]["drivers"] = PROPS["C03"]["drivers"] + [{"name": "alias", "bin": "vh_conc", "env": {"GORACE": "halt_on_error=1 exitcode=66"}, "n_quick": 60, "n_thorough": 600}]
+PROPS["C03"]["model_files"] = list(dict.fromkeys(PROPS["C03"]["model_files"] + SLICE_MODEL))
+PROPS["C03"]["rule"] = PROPS["C03"]["rule"] + (" || alias (vh_conc): 2-4 sessions interleaved request by request over ONE resource that hands out the same stored slices (with spare capacity); every session must be routed "
+    "as in its solo run, and no session's pending code may share a backing array with the resource or with another session")
+
+# CDisasmEnc (large files judged through the C14 round-trip theorem): the lemma that justifies it
+for _p in ("C14", "C15"):
+    PROPS[_p]["files"] = list(dict.fromkeys(PROPS[_p]["files"] + ["proofs/CodecCorrProofs.v"]))
